@@ -1,0 +1,25 @@
+//go:build verif
+
+package kernel
+
+import "github.com/MixinNetwork/mixin/crypto"
+
+// Verification hooks for property C12 (CoSi nonce bookkeeping of a chain): a bare Chain that
+// carries only the nonce maps, and exported wrappers around the unexported bookkeeping.
+
+func VerifNewNonceChain(chainId, nodeId crypto.Hash) *Chain {
+	return &Chain{
+		node:        &Node{IdForNetwork: nodeId},
+		ChainId:     chainId,
+		CosiRandoms: make(map[crypto.Key]*crypto.CosiNonce),
+		UsedRandoms: make(map[crypto.Hash]*crypto.CosiNonce),
+	}
+}
+
+func (chain *Chain) VerifCosiRetrieveRandom(snap, peerId crypto.Hash, challenge *crypto.Key) *crypto.CosiNonce {
+	return chain.cosiRetrieveRandom(snap, peerId, challenge)
+}
+
+func (chain *Chain) VerifUsedRandomsOrder() []crypto.Hash {
+	return append([]crypto.Hash(nil), chain.usedRandomsOrder...)
+}
